@@ -132,26 +132,53 @@ def check(case):
     best = int(m.subgraph.best_k)
     if kind == "knn":
         max_k = case["max_k"]
-        # each accuracy belongs to the candidate whose arcs were created last before it; the ORDER in which candidates are tried is free
-        by_k, cur = {}, None
+        # Each validation accuracy belongs to the candidate whose density estimate (calculate_pdf(k)) - failing that, whose arcs - was computed
+        # last before it; if neither was observed since the previous accuracy the attribution is undecided (inconclusive, never an alarm).
+        # The ORDER in which candidates are tried is free.
+        by_k, cur, order = {}, None, []
         for e in log:
-            if e[0] == "arcs":
+            if e[0] == "pdf":
                 cur = e[1]
-            elif e[0] == "crit" and cur is not None:
-                by_k[cur] = e[1]
-        if sorted(by_k) != list(range(1, max_k + 1)) or len(crit) < max_k:
-            res.violate("selection", "C16/knn/candidates", f"candidate ks evaluated {sorted(by_k)} with {len(crit)} accuracies; expected every k in 1..{max_k}")
+            elif e[0] == "arcs" and cur is None:
+                cur = e[1]
+            elif e[0] == "crit":
+                if cur is None:
+                    return res.reject("candidate-attribution-undecided")
+                by_k.setdefault(cur, e[1])
+                order.append(cur)
+                cur = None
+        if not by_k or any(not (1 <= k <= max_k) for k in by_k):
+            res.violate("selection", "C16/knn/candidates", f"candidate ks evaluated {sorted(by_k)} with {len(crit)} accuracies; expected candidates of 1..{max_k}")
             return res
-        accs = [by_k[k] for k in range(1, max_k + 1)]
-        if [e[1] for e in log if e[0] == "arcs"][:max_k] != list(range(1, max_k + 1)):
-            res.see("knn_candidates_in_another_order")
-        if any(not math.isfinite(a) for a in accs):
+        if any(not math.isfinite(a) for a in by_k.values()):
             return res.reject("criterion-not-finite")
-        want = 1 + int(np.argmax(accs))          # argmax returns the first maximum = smallest k
+        if order != list(range(1, max_k + 1)):
+            res.see("knn_candidates_in_another_order_or_not_all")
         res.see("knn_selection_checked")
-        if best != want:
-            res.violate("selection", "C16/knn/not-smallest-argmax", f"best_k={best} but accuracies by k are {accs}: smallest k with the highest accuracy is {want}")
+        # "the smallest k in 1..max_k whose validation accuracy is highest among all candidates": every smaller k was tried and scored strictly
+        # lower; every larger k was tried and did not score higher - or was legitimately skipped because the kept k already reached 1.0, the
+        # largest value the measure can take
+        if best not in by_k:
+            res.violate("selection", "C16/knn/candidates", f"best_k={best} was never evaluated (evaluated: {sorted(by_k)})")
             return res
+        top = by_k[best]
+        for k in range(1, max_k + 1):
+            if k == best:
+                continue
+            if k not in by_k:
+                if k > best and top == 1.0:
+                    res.see("knn_candidates_skipped_after_perfect_score")
+                    continue
+                res.violate("selection", "C16/knn/candidates",
+                            f"candidate k={k} of 1..{max_k} was never evaluated although best_k={best} scored {top!r} (evaluated: {sorted(by_k)})")
+                return res
+            if (k < best and not by_k[k] < top) or (k > best and by_k[k] > top):
+                accs_txt = [by_k.get(t) for t in range(1, max_k + 1)]
+                want = min(t for t in by_k if by_k[t] == max(by_k.values()))
+                res.violate("selection", "C16/knn/not-smallest-argmax", f"best_k={best} but accuracies by k are {accs_txt}: smallest k with the highest accuracy is {want}")
+                return res
+        accs = [by_k[k] for k in sorted(by_k)]
+        want = best
         # "its final model is built with that k": judged on the STATE the fit leaves (densities == those of a fresh graph built with k = best_k),
         # not on the sequence of internal calls, which an implementation is free to organise otherwise
         bad = _final_state_mismatch(m, case, best)
@@ -170,7 +197,14 @@ def check(case):
         res.nontrivial = max_k >= 3 and len(set(accs)) >= 2 and want != 1
     else:
         lo, hi = case["min_k"], case["max_k"]
-        cuts = [(e[1], e[2]) for e in crit]
+        cuts_all = [(e[1], e[2]) for e in crit]
+        cuts, seen_k = [], set()
+        for k_, v_ in cuts_all:          # a k evaluated again later (e.g. a read-only cut of the final model) is not a new candidate
+            if k_ in seen_k:
+                res.see("unsup_cut_evaluated_again")
+                continue
+            seen_k.add(k_)
+            cuts.append((k_, v_))
         ks = [k for k, _ in cuts]
         # the ORDER in which candidates are tried is free; they must be distinct candidates of the range
         if not ks or len(set(ks)) != len(ks) or min(ks) < lo or max(ks) > hi:
